@@ -990,6 +990,93 @@ def system_items(cases):
     return items
 
 
+def make_script_case(rng):
+    sy = make_system_case(rng)
+    tu = list(sysgen.rand_sys(rng))
+
+    def tq():
+        return {"v": rng.choice([0.5, 1.0, 0.125, 2.0, 1e-3, 30.0]), "sys": list(sysgen.rand_sys(rng)), "dim": [0, 1, 0]}
+    ts = sorted(rng.choice([0.0, 0.5, 1.0, 2.0, 3.5, 10.0]) for _ in range(rng.randint(1, 5)))
+    return {"system": sy, "ts": ts, "ts_units": tu, "dt": tq(), "tmax": tq() if rng.random() < 0.5 else None,
+            "policy": rng.choice(["on_t_sample", "on_iteration", "on_interval", "no_sampling"]), "interval": tq(), "seed": rng.randrange(2 ** 32),
+            "init": rng.choice(["auto", "none", "Poisson", "redist"]), "units": list(sysgen.rand_sys(rng)), "alias_seed": rng.randrange(2 ** 30)}
+
+
+def observe_script(c):
+    import strengths
+    import strengths.rdscript as rsc
+    U = strengths.units
+    sc = c["system"]
+    try:
+        state = U.UnitArray(list(sc["state"]), U.Units(sysgen.py_sys(U, sc["state_units"]), U.UnitsDimensions(quantity=1)))
+        sy = strengths.RDSystem(network=_py_network(strengths, U, sc["net"]), space=_py_space(strengths, U, sc["space_kind"], sc["space"]),
+                                state=state, chemostats=list(sc["chs"]), units_system=sysgen.py_sys(U, sc["units"]))
+        kw = {} if c["tmax"] is None else {"t_max": _qtext(c["tmax"])}
+        script = strengths.RDScript(system=sy, t_sample=U.UnitArray(list(c["ts"]), U.Units(sysgen.py_sys(U, c["ts_units"]), U.UnitsDimensions(time=1))),
+                                    time_step=_qtext(c["dt"]), sampling_policy=c["policy"], sampling_interval=_qtext(c["interval"]),
+                                    rng_seed=c["seed"], init_state_processing=c["init"], units_system=sysgen.py_sys(U, c["units"]), **kw)
+        written = json.loads(json.dumps(rsc.rdscript_to_dict(script)))
+    except Exception as e:
+        return {"error": "%s: %s" % (type(e).__name__, str(e)[:100])}
+    rng = random.Random(c["alias_seed"])
+    variants = [["as_written", copy.deepcopy(written)]]
+    for syn in ALIASES.get("script", []):
+        present = [k for k in syn if k in written]
+        if len(present) == 1 and len(syn) > 1 and rng.random() < 0.5:
+            v = copy.deepcopy(written)
+            v[rng.choice([a for a in syn if a != present[0]])] = v.pop(present[0])
+            variants.append(["alias:" + present[0], v])
+    for key in ("time_step", "t_max", "sampling_policy", "sampling_interval", "init_state_processing", "units"):
+        if rng.random() < 0.3:
+            v = copy.deepcopy(written)
+            del v[key]
+            variants.append(["omitted:" + key, v])
+    v = copy.deepcopy(written)
+    r = rng.random()
+    if r < 0.35:
+        v["sampling_policy"] = rng.choice(["on_sample", "never", "on_t_sample "])      # rejected
+        variants.append(["bad_policy", v])
+    elif r < 0.7:
+        v["init_state_processing"] = rng.choice(["poisson", "floor", ""])            # rejected
+        variants.append(["bad_mode", v])
+    else:
+        v["time_step"] = v["time_step"].split()[0] + " m"                             # not a time: rejected
+        variants.append(["step_not_a_time", v])
+    return {"written": written, "variants": _variants_out(variants, lambda d: rsc.rdscript_to_dict(rsc.rdscript_from_dict(d)))}
+
+
+def emit_script(c, o):
+    def gq(q):
+        return "(%s, (%s, %s))" % (g_codepoints(repr(float(q["v"]))), si.g_usys(q["sys"]), si.g_dim(q["dim"]))
+    sy = c["system"]
+    gsy = "(Build_system_obj str %s %s (%s, (%s, %s)) %s %s)" % (
+        g_network_obj(sy["net"]), g_space_obj(sy["space_kind"], sy["space"]), g_list([g_codepoints(repr(float(v))) for v in sy["state"]]),
+        si.g_usys(sy["state_units"]), si.g_dim([0, 0, 1]), g_list([core.g_z(b) for b in sy["chs"]]), si.g_usys(sy["units"]))
+    gs_ = "(Build_script_obj str %s (%s, (%s, %s)) %s %s %s %s %s %s %s : sc_obj)" % (
+        gsy, g_list([g_codepoints(repr(float(t))) for t in c["ts"]]), si.g_usys(c["ts_units"]), si.g_dim([0, 1, 0]), gq(c["dt"]),
+        "None" if c["tmax"] is None else "(Some %s)" % gq(c["tmax"]), g_codepoints(c["policy"]), gq(c["interval"]), core.g_z(c["seed"]),
+        g_codepoints(c["init"]), si.g_usys(c["units"]))
+    if "error" in o:
+        return gs_, "(JBool false, [])"
+    go = "(%s, %s)" % (g_jv(o["written"]), g_list(["(%s, %s)" % (g_jv(v), g_jv(w)) for _, v, w in o["variants"]]))
+    return gs_, go
+
+
+def script_items(cases):
+    obs = child.map_children("c12", "observe_script", cases, timeout=60)
+    items = []
+    for c, o in zip(cases, obs):
+        if "timeout" in o or "crash" in o:
+            o = {"error": "timeout or crash"}
+        try:
+            gc, go = emit_script(c, o)
+        except ValueError as e:
+            o = {"error": str(e)}
+            gc, go = emit_script(c, o)
+        items.append({"case": c, "obs": o, "gcase": gc, "gobs": go, "nontrivial": "error" not in o})
+    return items
+
+
 def check(run):
     rng = random.Random(run.seed)
     sysgen.POOLS["space"] = ["cm", "mm", "dmm", "cmm", "µm", "nm", "dm"]
@@ -1015,7 +1102,7 @@ def check(run):
                 "Coq. non-trivial = at least two round trips were possible")
     core.decide(run, items, IMPORTS, "accept_C12", oracle, shard=30)
     # object level: the modelled species writer / reader against species_to_dict / species_from_dict, dictionary for dictionary
-    ns = 120 if run.tier == "quick" else 1000
+    ns = 80 if run.tier == "quick" else 800
     sitems = species_items([make_species_case(rng) for _ in range(ns)])
     for it in sitems:
         for label, _, _ in it["obs"].get("variants", []):
@@ -1046,12 +1133,20 @@ def check(run):
         for label, _, w in it["obs"].get("variants", []):
             run.count("system_variant:" + label.split(":")[0] + (":rejected" if w is None else ""))
     core.decide(run, yitems, IMPORTS, "accept_C12_system", oracle_species, shard=10)
+    citems = script_items([make_script_case(rng) for _ in range(ns // 2)])
+    for it in citems:
+        for label, _, w in it["obs"].get("variants", []):
+            run.count("script_variant:" + label.split(":")[0] + (":rejected" if w is None else ""))
+    core.decide(run, citems, IMPORTS, "accept_C12_script", oracle_species, shard=10)
 
 
 def replay(run, payload):
     sysgen.POOLS["space"] = ["cm", "mm", "dmm", "cmm", "µm", "nm", "dm"]
     if payload.get("correspondence") == "accept_C12_species":
         core.decide(run, species_items([payload["case"]]), IMPORTS, "accept_C12_species", oracle_species)
+        return
+    if payload.get("correspondence") == "accept_C12_script":
+        core.decide(run, script_items([payload["case"]]), IMPORTS, "accept_C12_script", oracle_species)
         return
     if payload.get("correspondence") == "accept_C12_system":
         core.decide(run, system_items([payload["case"]]), IMPORTS, "accept_C12_system", oracle_species)
